@@ -133,6 +133,11 @@ def run(ctx):
     from .c04 import rejected_rules
     creation_outcome_rules(ctx, m, rule="arrival")
     rejected_rules(ctx, m, rule="arrival")
+    # "once trading is enabled again every new or RE-PRICED order matches by the usual rules": a modification that names a price (or
+    # raises / restates the volume) goes through the replacement path - taken out of its queue, re-matched, re-queued - in every case,
+    # also when the named value equals the current one (C06's per-case dispatch rules on modify_order)
+    from .c06 import modify_rules, _Prefixed
+    modify_rules(_Prefixed(ctx, "rematch-"), m, with_typestate=False)
     # ---------------------------------------------------------------- flag writers
     en, dis = m.book_fn("enable_trading"), m.book_fn("disable_trading")
     for f, val in ((en, 1), (dis, 0)):
